@@ -116,7 +116,7 @@ TABLE = {
     ),
     "C16": dict(
         category="exploration", design_ref="3/C16",
-        technique="Hypothesis grammar-based and mutation-based fuzzing (raw bytes, header grammar with every JSON type per member, mutated valid compact and JSON tokens, reference-minted authenticated-but-malformed tokens, deep nesting) with an exception-type oracle and root-cause bucketing",
+        technique="Hypothesis grammar-based and mutation-based fuzzing (raw bytes, header grammar with every JSON type per member, mutated valid compact and JSON tokens, reference-minted authenticated-but-malformed tokens, deep nesting) with an exception-type oracle and root-cause bucketing; thorough tier adds coverage-guided fuzzing (atheris/libFuzzer driving the same Hypothesis strategy through fuzz_one_input, joserfc instrumented)",
         text="72 000 generated hostile inputs per quick run (7 generator families) are offered to every verification / decryption / JWT-decoding entry point with fixed well-formed keys "
              "(matching key type chosen from the header so that processing goes deep) and four registry configurations; any exception that is not a JoseError or ValueError "
              "(BaseException included, e.g. a pyo3 panic) is a finding keyed by exception type and innermost joserfc function. 16 committed witnesses of repaired root causes are replayed first. "
@@ -178,7 +178,7 @@ TABLE = {
     ),
     "C19": dict(
         category="exploration", design_ref="3/C19",
-        technique="exhaustive enumeration (len<=2) + Hypothesis generation, differential against an independent codec, round-trip and must-raise oracles",
+        technique="exhaustive enumeration (len<=2) + Hypothesis generation, differential against an independent codec, round-trip and must-raise oracles; thorough tier adds an atheris (coverage-guided) campaign with the same oracles",
         text="Every octet string of length 0-2 and ~10^5 generated longer ones are round-tripped and compared with an independent RFC 4648 codec; "
              "each of the 192 non-alphabet byte values is inserted at every position of generated encodings and must raise ValueError; integers around "
              "powers of 256 up to 2^4096 must use the minimal encoding and round-trip. Exploration, not proof: absence beyond the enumerated lengths is not shown.",
